@@ -100,16 +100,17 @@ theorem scaleOf_pos (best : List Vec) (v : Vec) : 0 < scaleOf best v := by
 /-! ## the witness question and its invariance under a common positive factor -/
 
 /-- feasible points of the LP `findWitness` poses (columns `b`, `K`, `delta`): `b` in the simplex, `wit·b − K = 0`,
-    `g·b − K + delta ≤ 0` for every optimal row, and lp_solve's default bound `delta ≥ 0` (only `K` is made free) -/
-def Feasible (n : Nat) (P : Posed) (b : Vec) (K δ : Rat) : Prop :=
-  IsBelief n b ∧ dot b P.wit - K = 0 ∧ (∀ g ∈ P.rows, dot b g - K + δ ≤ 0) ∧ 0 ≤ δ
+    `g·b − K + delta ≤ 0` for every optimal row, and — unless `delta` is made a free variable (`free`, both readings of the
+    constructor; which one the source has is `WitnessLP.deltaFree`) — lp_solve's default bound `delta ≥ 0` -/
+def Feasible (free : Bool) (n : Nat) (P : Posed) (b : Vec) (K δ : Rat) : Prop :=
+  IsBelief n b ∧ dot b P.wit - K = 0 ∧ (∀ g ∈ P.rows, dot b g - K + δ ≤ 0) ∧ (free = true ∨ 0 ≤ δ)
 
 def scalePosed (c : Rat) (P : Posed) : Posed := ⟨P.rows.map (scaleVec c), scaleVec c P.wit⟩
 
 /-- **invariance of the witness LP under a common positive factor**: `(b, K, δ)` is feasible for the LP of `(rows, v)` iff
     `(b, c·K, c·δ)` is feasible for the LP of `(c·rows, c·v)` — same beliefs, objective multiplied by `c` -/
-theorem feasible_scale (n : Nat) (c : Rat) (hc : 0 < c) (P : Posed) (b : Vec) (K δ : Rat) :
-    Feasible n (scalePosed c P) b (c * K) (c * δ) ↔ Feasible n P b K δ := by
+theorem feasible_scale (free : Bool) (n : Nat) (c : Rat) (hc : 0 < c) (P : Posed) (b : Vec) (K δ : Rat) :
+    Feasible free n (scalePosed c P) b (c * K) (c * δ) ↔ Feasible free n P b K δ := by
   unfold Feasible scalePosed
   simp only [dot_scaleVec, List.mem_map, forall_exists_index, and_imp, forall_apply_eq_imp_iff₂]
   constructor
@@ -126,10 +127,13 @@ theorem feasible_scale (n : Nat) (c : Rat) (hc : 0 < c) (P : Posed) (b : Vec) (K
       push Not at hcon
       have := mul_pos hc hcon
       linarith
-    · by_contra hcon
-      push Not at hcon
-      have := mul_neg_of_pos_of_neg hc hcon
-      linarith
+    · rcases h3 with h3 | h3
+      · exact Or.inl h3
+      · right
+        by_contra hcon
+        push Not at hcon
+        have := mul_neg_of_pos_of_neg hc hcon
+        linarith
   · rintro ⟨hb, h1, h2, h3⟩
     refine ⟨hb, ?_, ?_, ?_⟩
     · have : c * (dot b P.wit - K) = 0 := by rw [h1]; ring
@@ -138,27 +142,29 @@ theorem feasible_scale (n : Nat) (c : Rat) (hc : 0 < c) (P : Posed) (b : Vec) (K
       have := h2 g hg
       have h' : c * (dot b g - K + δ) ≤ 0 := mul_nonpos_of_nonneg_of_nonpos (le_of_lt hc) this
       linarith
-    · exact mul_nonneg (le_of_lt hc) h3
+    · rcases h3 with h3 | h3
+      · exact Or.inl h3
+      · exact Or.inr (mul_nonneg (le_of_lt hc) h3)
 
 /-- the optimum scales with the factor: `δ` is the largest feasible objective of `P` iff `c·δ` is that of `c·P`;
     in particular its SIGN — the answer of `findWitness` — does not change -/
-theorem optimum_scale (n : Nat) (c : Rat) (hc : 0 < c) (P : Posed) (δ : Rat) :
-    ((∃ b K, Feasible n P b K δ) ∧ ∀ b K δ', Feasible n P b K δ' → δ' ≤ δ) ↔
-    ((∃ b K, Feasible n (scalePosed c P) b K (c * δ)) ∧ ∀ b K δ', Feasible n (scalePosed c P) b K δ' → δ' ≤ c * δ) := by
+theorem optimum_scale (free : Bool) (n : Nat) (c : Rat) (hc : 0 < c) (P : Posed) (δ : Rat) :
+    ((∃ b K, Feasible free n P b K δ) ∧ ∀ b K δ', Feasible free n P b K δ' → δ' ≤ δ) ↔
+    ((∃ b K, Feasible free n (scalePosed c P) b K (c * δ)) ∧ ∀ b K δ', Feasible free n (scalePosed c P) b K δ' → δ' ≤ c * δ) := by
   have hc' : c ≠ 0 := ne_of_gt hc
   constructor
   · rintro ⟨⟨b, K, hf⟩, hmax⟩
-    refine ⟨⟨b, c * K, (feasible_scale n c hc P b K δ).mpr hf⟩, ?_⟩
+    refine ⟨⟨b, c * K, (feasible_scale free n c hc P b K δ).mpr hf⟩, ?_⟩
     intro b K δ' hf'
-    have h := (feasible_scale n c hc P b (K / c) (δ' / c)).mp (by
+    have h := (feasible_scale free n c hc P b (K / c) (δ' / c)).mp (by
       rw [mul_div_cancel₀ _ hc', mul_div_cancel₀ _ hc']; exact hf')
     have := hmax b (K / c) (δ' / c) h
     rw [div_le_iff₀ hc] at this
     linarith
   · rintro ⟨⟨b, K, hf⟩, hmax⟩
-    refine ⟨⟨b, K / c, (feasible_scale n c hc P b (K / c) δ).mp (by rw [mul_div_cancel₀ _ hc']; exact hf)⟩, ?_⟩
+    refine ⟨⟨b, K / c, (feasible_scale free n c hc P b (K / c) δ).mp (by rw [mul_div_cancel₀ _ hc']; exact hf)⟩, ?_⟩
     intro b K δ' hf'
-    have := hmax b (c * K) (c * δ') ((feasible_scale n c hc P b K δ').mpr hf')
+    have := hmax b (c * K) (c * δ') ((feasible_scale free n c hc P b K δ').mpr hf')
     exact le_of_mul_le_mul_left this hc
 
 /-- a belief is a (strict) witness for `(best, v)` iff it is one for the scaled question -/
@@ -173,9 +179,9 @@ theorem witness_scale (c : Rat) (hc : 0 < c) (best : List Vec) (v w : Vec) :
 
 /-- contract of the LP solver on the LPs `findWitness` poses: an answer is a feasible point with the reported objective;
     "no answer" or an objective `≤ 0` is given only when no feasible point has an objective above `ε'` -/
-def SolverOK (n : Nat) (ε' : Rat) (solver : Posed → Option (Rat × Vec)) : Prop :=
-  (∀ P δ b, solver P = some (δ, b) → ∃ K, Feasible n P b K δ) ∧
-  (∀ P, (solver P = none ∨ ∃ δ b, solver P = some (δ, b) ∧ δ ≤ 0) → ∀ b K δ', Feasible n P b K δ' → δ' ≤ ε')
+def SolverOK (free : Bool) (n : Nat) (ε' : Rat) (solver : Posed → Option (Rat × Vec)) : Prop :=
+  (∀ P δ b, solver P = some (δ, b) → ∃ K, Feasible free n P b K δ) ∧
+  (∀ P, (solver P = none ∨ ∃ δ b, solver P = some (δ, b) ∧ δ ≤ 0) → ∀ b K δ', Feasible free n P b K δ' → δ' ≤ ε')
 
 theorem exists_margin (s ε' : Rat) (b v : Vec) : ∀ (best : List Vec),
     (∀ g ∈ best, ε' < s * (dot b v - dot b g)) → ∃ δ', ε' < δ' ∧ ∀ g ∈ best, δ' ≤ s * (dot b v - dot b g)
@@ -191,9 +197,39 @@ theorem exists_margin (s ε' : Rat) (b v : Vec) : ∀ (best : List Vec),
         · exact le_refl _
         · exact le_trans (le_of_lt hle) (hd2 g' h')⟩
 
+theorem exists_lower (K : Rat) (b : Vec) : ∀ (rows : List Vec), ∃ δ : Rat, ∀ g ∈ rows, dot b g - K + δ ≤ 0
+  | [] => ⟨0, by simp⟩
+  | g :: gs => by
+    obtain ⟨d, hd⟩ := exists_lower K b gs
+    by_cases h : dot b g - K + d ≤ 0
+    · exact ⟨d, by intro g' hg'; rcases List.mem_cons.mp hg' with rfl | h'; exact h; exact hd g' h'⟩
+    · push Not at h
+      refine ⟨K - dot b g, ?_⟩
+      intro g' hg'; rcases List.mem_cons.mp hg' with rfl | h'
+      · linarith
+      · have := hd g' h'; linarith
+
+/-- **why `delta` should be free** (fixes/C12-6): with `delta` free the witness LP is feasible at EVERY belief, so lp_solve's
+    INFEASIBLE can only be a solver failure; -/
+theorem feasible_of_free (n : Nat) (P : Posed) (b : Vec) (hb : IsBelief n b) : ∃ K δ, Feasible true n P b K δ := by
+  obtain ⟨δ, hδ⟩ := exists_lower (dot b P.wit) b P.rows
+  exact ⟨dot b P.wit, δ, hb, by ring, hδ, Or.inl rfl⟩
+
+/-- as found (`delta ≥ 0`) the LP is feasible exactly when some belief puts the question weakly above every row: "infeasible"
+    is then also the legitimate answer for a dominated vector, indistinguishable from a failure of the solver -/
+theorem feasible_asFound_iff (n : Nat) (P : Posed) :
+    (∃ b K δ, Feasible false n P b K δ) ↔ ∃ b, IsBelief n b ∧ ∀ g ∈ P.rows, dot b g ≤ dot b P.wit := by
+  constructor
+  · rintro ⟨b, K, δ, hb, h1, h2, h3⟩
+    rcases h3 with h3 | h3
+    · exact absurd h3 (by simp)
+    · exact ⟨b, hb, fun g hg => by have := h2 g hg; linarith⟩
+  · rintro ⟨b, hb, h⟩
+    exact ⟨b, dot b P.wit, 0, hb, by ring, fun g hg => by have := h g hg; linarith, Or.inr (le_refl _)⟩
+
 /-- **witnessOracle_some**: an answer of the modelled `findWitness` is a belief where `v` is strictly above every row —
     in the ORIGINAL units, whatever power of two the rows were multiplied by -/
-theorem witnessOracle_some (n : Nat) (ε' : Rat) (solver : Posed → Option (Rat × Vec)) (hs : SolverOK n ε' solver)
+theorem witnessOracle_some (free : Bool) (n : Nat) (ε' : Rat) (solver : Posed → Option (Rat × Vec)) (hs : SolverOK free n ε' solver)
     (best : List Vec) (v w : Vec) (h : witnessOracle solver best v = some w) :
     IsBelief n w ∧ ∀ g ∈ best, dot w g < dot w v := by
   unfold witnessOracle findWitness at h
@@ -218,7 +254,7 @@ theorem witnessOracle_some (n : Nat) (ε' : Rat) (solver : Posed → Option (Rat
 
 /-- **witnessOracle_none**: when the modelled `findWitness` answers "no witness", `v` is nowhere more than `ε' / scale` above
     the rows (original units; `ε'` is the solver's resolution on the scaled LP) -/
-theorem witnessOracle_none (n : Nat) (ε' : Rat) (hε : 0 ≤ ε') (solver : Posed → Option (Rat × Vec)) (hs : SolverOK n ε' solver)
+theorem witnessOracle_none (free : Bool) (n : Nat) (ε' : Rat) (hε : 0 ≤ ε') (solver : Posed → Option (Rat × Vec)) (hs : SolverOK free n ε' solver)
     (best : List Vec) (v : Vec) (h : witnessOracle solver best v = none) :
     ∀ b, IsBelief n b → ∃ g ∈ best, dot b v ≤ dot b g + ε' / scaleOf best v := by
   intro b hb
@@ -233,9 +269,9 @@ theorem witnessOracle_none (n : Nat) (ε' : Rat) (hε : 0 ≤ ε') (solver : Pos
     linarith
   obtain ⟨δ', hδ1, hδ2⟩ := exists_margin _ ε' b v best hall
   -- (b, K = s·(b·v), δ') is feasible for the posed LP
-  have hfeas : Feasible n (posed (best.foldl addOptimalRow reset) v) b (scaleOf best v * dot b v) δ' := by
+  have hfeas : Feasible free n (posed (best.foldl addOptimalRow reset) v) b (scaleOf best v * dot b v) δ' := by
     rw [posed_witnessOracle]
-    refine ⟨hb, by simp [dot_scaleVec], ?_, by linarith⟩
+    refine ⟨hb, by simp [dot_scaleVec], ?_, Or.inr (by linarith)⟩
     intro g hg
     obtain ⟨g0, hg0, rfl⟩ := List.mem_map.mp hg
     rw [dot_scaleVec]
@@ -265,8 +301,8 @@ example : witnessScale [1048576, -1048576] = 1 / 1048576 ∧ witnessScale [13000
 example : posed ([[1048576, -1048576], [-1048576, 1048576]].foldl addOptimalRow reset) [1/2, 1/2]
       = ⟨[[1, -1], [-1, 1]], [1 / 2097152, 1 / 2097152]⟩ := by decide +kernel
 
-example : Feasible 2 ⟨[[1, -1], [-1, 1]], [1 / 2097152, 1 / 2097152]⟩ [1/2, 1/2] (1 / 2097152) (1 / 2097152) := by
-  refine ⟨⟨by decide, ?_, by decide +kernel⟩, by decide +kernel, ?_, by decide +kernel⟩
+example : Feasible false 2 ⟨[[1, -1], [-1, 1]], [1 / 2097152, 1 / 2097152]⟩ [1/2, 1/2] (1 / 2097152) (1 / 2097152) := by
+  refine ⟨⟨by decide, ?_, by decide +kernel⟩, by decide +kernel, ?_, Or.inr (by decide +kernel)⟩
   · intro x hx; simp at hx; subst hx; decide +kernel
   · intro g hg; simp at hg; rcases hg with rfl | rfl <;> decide +kernel
 
@@ -444,10 +480,10 @@ theorem guardedOracle_not_mem (solver : Posed → Option (Rat × Vec)) (n : Nat)
     `witnessScale`, `delta ≥ 0`, `deltaValue <= 0` discarded) and an LP solver that meets `SolverOK` with resolution `ε'`
     on the scaled LPs: sub-multiset, envelope preserved up to `length · linkSlack M + ε' · max(1, M)`, every kept vector
     attains the maximum of the kept set somewhere.  The scaling needs no hypothesis: it is proved harmless. -/
-theorem pruner_lp_spec (solver : Posed → Option (Rat × Vec)) (n : Nat) (hn : 0 < n) (M ε' : Rat) (hM : 0 ≤ M) (hε : 0 ≤ ε')
+theorem pruner_lp_spec (free : Bool) (solver : Posed → Option (Rat × Vec)) (n : Nat) (hn : 0 < n) (M ε' : Rat) (hM : 0 ≤ M) (hε : 0 ≤ ε')
     (S : Nat) (hS : S ≤ n) (xs : List Vec)
     (hlen : ∀ v ∈ xs, v.length = n) (hMx : ∀ v ∈ xs, ∀ x ∈ v, absQ x ≤ M)
-    (hs : SolverOK n ε' solver) :
+    (hs : SolverOK free n ε' solver) :
     ((pruner dominates (witnessOracle solver) S xs).1 ++ (pruner dominates (witnessOracle solver) S xs).2).Perm xs ∧
     (∀ bel, IsBelief n bel → ∀ x ∈ xs, ∃ g ∈ (pruner dominates (witnessOracle solver) S xs).1,
         dot bel x ≤ dot bel g + (xs.length : Rat) * linkSlack M + ε' * maxQ 1 M) ∧
@@ -461,7 +497,7 @@ theorem pruner_lp_spec (solver : Posed → Option (Rat × Vec)) (n : Nat) (hn : 
   · intro best v w hw
     by_cases hmem : (∀ g ∈ best, g ∈ xs) ∧ v ∈ xs
     · rw [guardedOracle_mem solver n xs best v hmem] at hw
-      exact witnessOracle_some n ε' solver hs best v w hw
+      exact witnessOracle_some free n ε' solver hs best v w hw
     · rw [guardedOracle_not_mem solver n xs best v hmem] at hw
       unfold idealOracle at hw
       split at hw
@@ -472,7 +508,7 @@ theorem pruner_lp_spec (solver : Posed → Option (Rat × Vec)) (n : Nat) (hn : 
   · intro best v hnone b hb
     by_cases hmem : (∀ g ∈ best, g ∈ xs) ∧ v ∈ xs
     · rw [guardedOracle_mem solver n xs best v hmem] at hnone
-      obtain ⟨g, hg, hle⟩ := witnessOracle_none n ε' hε solver hs best v hnone b hb
+      obtain ⟨g, hg, hle⟩ := witnessOracle_none free n ε' hε solver hs best v hnone b hb
       refine ⟨g, hg, le_trans hle ?_⟩
       have hinv := inv_scaleOf_le M hM best v (fun g hg => hMx g (hmem.1 g hg)) (hMx v hmem.2)
       have : ε' / scaleOf best v = ε' * (1 / scaleOf best v) := by ring
